@@ -3,6 +3,7 @@ C07 — Prepared responses are correlated with their request (type, message ID,
 token).  Model: `Response.new`, `Request.fromPacket`, `Request.applyFromError`
 (Model/Request.lean); `responseTypeFor` is regenerated from the source.
 -/
+import CoapLite.Lemmas.Shape.Api
 import CoapLite.Lemmas.Request
 import CoapLite.Lemmas.Shape.Request
 import CoapLite.Lemmas.Shape.Packet
@@ -100,5 +101,14 @@ theorem state_shape_matches_source :
     Shapes.header = [("code", "MessageClass"), ("message_id", "u16"), ("ver_type_tkl", "u8")] ∧
     Shapes.headerRaw = [("code", "u8"), ("message_id", "u16"), ("ver_type_tkl", "u8")] :=
   ⟨ShapeTie.no_global_state, ShapeTie.coapRequest, ShapeTie.coapResponse, ShapeTie.packet, ShapeTie.header, ShapeTie.headerRaw⟩
+
+/-- the public entry points of the modelled source files – re-read from /repo/src on every run – are
+exactly the ones the model was written against (`Lemmas/Shape/Api.lean`): a new public way to change the
+state this property is about, or a receiver that became `&mut self`, breaks this theorem -/
+theorem api_surface_matches_source :
+    Shapes.apiRequest = ShapeTie.expectedApiRequest ∧
+    Shapes.apiResponse = ShapeTie.expectedApiResponse ∧
+    Shapes.apiHeader = ShapeTie.expectedApiHeader :=
+  ⟨ShapeTie.apiRequest, ShapeTie.apiResponse, ShapeTie.apiHeader⟩
 
 end CoapLite.C07
